@@ -95,6 +95,10 @@ func cmdCheck(args []string) int {
 			cfg.concLimit = hs.Conc
 		}
 		cfg.seed = seed
+		cfg.Stall = hs.Stall
+		if hs.Stall && hs.Steps == 0 {
+			cfg.StepBudget = 600000
+		}
 		res := runHarness(cfg, lp)
 		res.Spec = hs
 		printResult(res)
@@ -180,6 +184,8 @@ func cmdCheck(args []string) int {
 					ok = nr.Outcome == "assert" && nr.Label == v.Label
 				case "panic":
 					ok = nr.Outcome == "panic"
+				case "stall":
+					ok = nr.Outcome == "timeout"
 				case "deadlock":
 					ok = nr.Outcome == "timeout" || nr.Outcome == "deadlock"
 				case "race":
